@@ -25,7 +25,8 @@ import (
 
 // verifC01Expr is a stateful.Expression standing for the lambda `"<name>"`: a reference
 // to the boolean field <name> of the point. The real EvalPredicate/fillScope/ScopePool
-// run; only the (reflection-free but large) expression compiler is replaced.
+// run; only the expression compiler/evaluator (property C04) is replaced. As with the
+// real evaluator, a missing or non-boolean field is an evaluation error.
 type verifC01Expr struct{ name string }
 
 func (e *verifC01Expr) Reset() {}
@@ -81,6 +82,17 @@ func (s *verifC01AlertSvc) IsInhibited(name string, tags models.Tags) bool      
 func (s *verifC01AlertSvc) AddInhibitor(*alert.Inhibitor)                       {}
 func (s *verifC01AlertSvc) RemoveInhibitor(*alert.Inhibitor)                    {}
 
+// on returns the events collected for one topic from position from on.
+func (s *verifC01AlertSvc) on(topic string, from int) []alert.Event {
+	var evs []alert.Event
+	for _, e := range s.events[from:] {
+		if e.Topic == topic {
+			evs = append(evs, e)
+		}
+	}
+	return evs
+}
+
 // verifC01Handler only makes the node own an anonymous topic (hasAnonTopic).
 type verifC01Handler struct{}
 
@@ -89,16 +101,16 @@ func (verifC01Handler) Handle(event alert.Event) {}
 // verifC01Info is the vars.Infoer needed by the real ID/message templates (native replay only).
 type verifC01Info struct{}
 
-func (verifC01Info) ClusterID() uuid.UUID     { return uuid.Nil }
-func (verifC01Info) ServerID() uuid.UUID      { return uuid.Nil }
-func (verifC01Info) Hostname() string         { return "h" }
-func (verifC01Info) Version() string          { return "v" }
-func (verifC01Info) Product() string          { return "p" }
-func (verifC01Info) Platform() string         { return "l" }
-func (verifC01Info) NumTasks() int64          { return 0 }
-func (verifC01Info) NumEnabledTasks() int64   { return 0 }
-func (verifC01Info) NumSubscriptions() int64  { return 0 }
-func (verifC01Info) Uptime() time.Duration    { return 0 }
+func (verifC01Info) ClusterID() uuid.UUID    { return uuid.Nil }
+func (verifC01Info) ServerID() uuid.UUID     { return uuid.Nil }
+func (verifC01Info) Hostname() string        { return "h" }
+func (verifC01Info) Version() string         { return "v" }
+func (verifC01Info) Product() string         { return "p" }
+func (verifC01Info) Platform() string        { return "l" }
+func (verifC01Info) NumTasks() int64         { return 0 }
+func (verifC01Info) NumEnabledTasks() int64  { return 0 }
+func (verifC01Info) NumSubscriptions() int64 { return 0 }
+func (verifC01Info) Uptime() time.Duration   { return 0 }
 
 // ---------------------------------------------------------------------------------
 // Templates: text/template is not encodable. Natively the real templates (constant
@@ -110,6 +122,8 @@ const (
 	verifC01ID      = "alert-id"
 	verifC01Message = "msg"
 	verifC01Details = "det"
+	verifC01Topic   = "user-topic"
+	verifC01Anon    = "main:task:alert2"
 )
 
 func verifC01SetTemplates(n *AlertNode) {
@@ -133,34 +147,54 @@ func verifC01RenderMessageAndDetails(n *AlertNode, id, name string, t time.Time,
 
 // verifC01Cfg is the part of the alert node configuration that the property ranges over.
 type verifC01Cfg struct {
-	level [4]bool // level[l]: a condition is configured for level l (1..3)
-	reset [4]bool // reset[l]: a reset condition is configured for level l
-	sco   bool    // stateChangesOnly
-	ival  time.Duration
-	noRec bool
-	all   bool
+	level   [4]bool // level[l]: a condition is configured for level l (1..3)
+	reset   [4]bool // reset[l]: a reset condition is configured for level l
+	sco     bool    // stateChangesOnly
+	ival    time.Duration
+	noRec   bool
+	all     bool
+	anon    bool // handlers on the node itself (anonymous topic)
+	topic   bool // user topic
+	history int64
+	augment int // 0 none, 1 all six tag/field options, 2 levelField+durationField, 3 idTag
 }
 
 var verifC01LevelNames = [4]string{"", "info", "warn", "crit"}
 var verifC01ResetNames = [4]string{"", "infoReset", "warnReset", "critReset"}
 
+// Level names as documented (pipeline/alert.go: "Level -- one of OK, INFO, WARNING or CRITICAL").
+var verifC01LevelText = [4]string{"OK", "INFO", "WARNING", "CRITICAL"}
+
 // verifC01Node builds the AlertNode exactly as newAlertNode leaves it (levels/levelResets
-// indexed by level with their scope pools, history >= 2), without services and handlers.
+// indexed by level with their scope pools, history >= 2), without the handler services.
 func verifC01Node(cfg verifC01Cfg, svc *verifC01AlertSvc, diag *verifNopDiag) *AlertNode {
-	pn := &pipeline.AlertNode{AlertNodeData: &pipeline.AlertNodeData{
-		History:                  2,
+	data := &pipeline.AlertNodeData{
+		History:                  cfg.history,
 		NoRecoveriesFlag:         cfg.noRec,
 		IsStateChangesOnly:       cfg.sco,
 		StateChangesOnlyDuration: cfg.ival,
 		AllFlag:                  cfg.all,
-	}}
+	}
+	switch cfg.augment {
+	case 1:
+		data.LevelTag, data.LevelField, data.IdTag, data.IdField, data.DurationField, data.MessageField = "lt", "level", "it", "id", "dur", "message"
+	case 2:
+		data.LevelField, data.DurationField = "level", "dur"
+	case 3:
+		data.IdTag = "it"
+	}
 	tm := &TaskMaster{AlertService: svc, ServerInfo: verifC01Info{}}
 	et := &ExecutingTask{tm: tm, Task: &Task{ID: "task"}}
 	an := &AlertNode{
 		node:      node{et: et, diag: diag},
-		a:         pn,
-		anonTopic: "main:task:alert2",
-		handlers:  []alert.Handler{verifC01Handler{}},
+		a:         &pipeline.AlertNode{AlertNodeData: data},
+		anonTopic: verifC01Anon,
+	}
+	if cfg.anon {
+		an.handlers = []alert.Handler{verifC01Handler{}}
+	}
+	if cfg.topic {
+		an.topic = verifC01Topic
 	}
 	verifC01SetTemplates(an)
 	an.levels = make([]stateful.Expression, alert.Critical+1)
@@ -187,25 +221,47 @@ func verifC01Node(cfg verifC01Cfg, svc *verifC01AlertSvc, diag *verifNopDiag) *A
 	return an
 }
 
-// verifC01ChooseCfg enumerates the structure of the configuration.
-func verifC01ChooseCfg(v *vrt.T) verifC01Cfg {
-	var cfg verifC01Cfg
+// Variants of the parts of the configuration that do not interact with the state
+// machine: where events go, the history length (flapping off) and what is added to
+// forwarded data.
+var verifC01Variants = []verifC01Cfg{
+	{anon: true, topic: true, history: 2, augment: 1},
+	{anon: true, topic: false, history: 3, augment: 0},
+	{anon: false, topic: true, history: 5, augment: 2},
+	{anon: false, topic: false, history: 4, augment: 3},
+}
+
+// Level tables (info, warn, crit: 0 absent, 1 condition, 2 condition + reset) for the
+// harnesses that do not enumerate all 27 combinations (bound "leveltables" = number of
+// rows used; 0 = all 27 combinations).
+var verifC01LevelTables = [][3]int{{2, 2, 2}, {1, 1, 1}, {0, 0, 1}, {1, 2, 0}, {0, 1, 2}}
+
+// verifC01ChooseCfg enumerates the structure of the configuration; data-like parts
+// (interval, noRecoveries) are symbolic.
+func verifC01ChooseCfg(v *vrt.T, batch bool) verifC01Cfg {
+	cfg := verifC01Variants[v.Choose("variant", v.Bound("variants", 1))]
 	// per level: absent / condition / condition + reset (newAlertNode compiles a reset
 	// only for a configured level)
-	ci := v.Choose("info", 3)
-	cw := v.Choose("warn", 3)
-	cc := v.Choose("crit", 3)
+	var ci, cw, cc int
+	if nt := v.Bound("leveltables", 0); nt > 0 {
+		tab := verifC01LevelTables[v.Choose("levels", nt)]
+		ci, cw, cc = tab[0], tab[1], tab[2]
+	} else {
+		ci = v.Choose("info", 3)
+		cw = v.Choose("warn", 3)
+		cc = v.Choose("crit", 3)
+	}
 	cfg.level[alert.Info], cfg.reset[alert.Info] = ci >= 1, ci == 2
 	cfg.level[alert.Warning], cfg.reset[alert.Warning] = cw >= 1, cw == 2
 	cfg.level[alert.Critical], cfg.reset[alert.Critical] = cc >= 1, cc == 2
-	switch v.Choose("stateChangesOnly", 3) {
-	case 1:
+	if v.Choose("stateChangesOnly", 2) == 1 {
 		cfg.sco = true
-	case 2:
-		cfg.sco = true
-		cfg.ival = time.Duration(v.IntRange("interval", 1, 48))
+		cfg.ival = time.Duration(v.IntRange("interval", 0, 48)) // 0 = no interval
 	}
-	cfg.noRec = v.Choose("noRecoveries", 2) == 1
+	cfg.noRec = v.Bool("noRecoveries")
+	if batch {
+		cfg.all = v.Choose("all", 2) == 1
+	}
 	return cfg
 }
 
@@ -214,11 +270,11 @@ func verifC01ChooseCfg(v *vrt.T) verifC01Cfg {
 // ---------------------------------------------------------------------------------
 
 type verifC01Ref struct {
-	cfg       verifC01Cfg
-	level     alert.Level // current level of the ID
-	lastEmit  int64       // time of the last emitted event (valid if emitted)
-	emitted   bool
-	leftOK    int64 // time at which the ID last left OK
+	cfg      verifC01Cfg
+	level    alert.Level // current level of the ID
+	lastEmit int64       // time of the last emitted event (valid if emitted)
+	emitted  bool
+	leftOK   int64 // time at which the ID last left OK
 }
 
 // newLevel: highest configured level >= L whose condition holds; otherwise L while its
@@ -266,7 +322,7 @@ func (r *verifC01Ref) step(l alert.Level, t int64) (emit bool, dur int64) {
 }
 
 // ---------------------------------------------------------------------------------
-// H1: stream form
+// Shared pieces
 // ---------------------------------------------------------------------------------
 
 func verifC01Group() (models.Dimensions, models.Tags) {
@@ -274,14 +330,19 @@ func verifC01Group() (models.Dimensions, models.Tags) {
 }
 
 // verifC01Fields puts the step's condition bits into the point's fields under the names
-// the configured expressions refer to.
-func verifC01Fields(v *vrt.T, cfg verifC01Cfg) (models.Fields, [4]bool, [4]bool) {
+// the configured expressions refer to. With missing != 0 a level condition's field may
+// be absent (evaluation error: the condition does not hold).
+func verifC01Fields(v *vrt.T, cfg verifC01Cfg, missing bool, seq int64) (models.Fields, [4]bool, [4]bool) {
 	var cond, reset [4]bool
-	f := models.Fields{}
+	f := models.Fields{"seq": seq}
 	for l := alert.Info; l <= alert.Critical; l++ {
 		if cfg.level[l] {
-			cond[l] = v.Bool("cond")
-			f[verifC01LevelNames[l]] = cond[l]
+			if missing && v.Choose("missing", 2) == 1 {
+				cond[l] = false
+			} else {
+				cond[l] = v.Bool("cond")
+				f[verifC01LevelNames[l]] = cond[l]
+			}
 		}
 		if cfg.reset[l] {
 			reset[l] = v.Bool("reset")
@@ -291,12 +352,78 @@ func verifC01Fields(v *vrt.T, cfg verifC01Cfg) (models.Fields, [4]bool, [4]bool)
 	return f, cond, reset
 }
 
+// verifC01CheckEvents: every configured topic got exactly one event (none when !emit)
+// since position from, carrying level, time, duration, id.
+func verifC01CheckEvents(v *vrt.T, cfg verifC01Cfg, svc *verifC01AlertSvc, from int, emit bool, level alert.Level, t, dur int64) {
+	want := 0
+	if emit {
+		want = 1
+	}
+	topics := [2]string{verifC01Anon, verifC01Topic}
+	on := [2]bool{cfg.anon, cfg.topic}
+	total := 0
+	for i := 0; i < 2; i++ {
+		evs := svc.on(topics[i], from)
+		if !on[i] {
+			v.Assert(len(evs) == 0, "no event on a topic that is not configured")
+			continue
+		}
+		total += want
+		if emit {
+			v.Assert(len(evs) == 1, "an event reaches the handlers exactly when documented (missing or duplicated)")
+		} else {
+			v.Assert(len(evs) == 0, "an event reaches the handlers exactly when documented (unexpected event)")
+		}
+		if emit && len(evs) == 1 {
+			ev := evs[0]
+			v.Observe("event", int(ev.State.Level), ev.State.Time.UnixNano(), int64(ev.State.Duration))
+			v.Assert(ev.State.Level == level, "event carries the level")
+			v.Assert(ev.State.Time.UnixNano() == t, "event carries the time of the triggering point")
+			v.Assert(int64(ev.State.Duration) == dur, "event duration is the time since the ID left OK")
+			v.Assert(ev.State.ID == verifC01ID && ev.State.Message == verifC01Message, "event id/message")
+			v.Assert(ev.Data.Recoverable == !cfg.noRec, "recoverable flag")
+		}
+	}
+	v.Assert(len(svc.events)-from == total, "nothing else collected")
+}
+
+// verifC01CheckAugmented: fields/tags of forwarded data = original ones plus the
+// configured event-state tags/fields.
+func verifC01CheckAugmented(v *vrt.T, cfg verifC01Cfg, fields, orig models.Fields, tags models.Tags, level alert.Level, dur int64) {
+	nf, nt := len(orig), 1
+	for name, val := range orig {
+		v.Assert(fields[name] == val, "forwarded data keeps its fields")
+	}
+	v.Assert(tags["host"] == "a", "forwarded data keeps its tags")
+	if cfg.augment == 1 || cfg.augment == 2 {
+		nf += 2
+		v.Assert(fields["level"] == interface{}(verifC01LevelText[level]), "levelField")
+		v.Assert(fields["dur"] == interface{}(dur), "durationField")
+	}
+	if cfg.augment == 1 {
+		nf += 2
+		nt += 2
+		v.Assert(fields["id"] == interface{}(verifC01ID) && fields["message"] == interface{}(verifC01Message), "idField/messageField")
+		v.Assert(tags["lt"] == verifC01LevelText[level] && tags["it"] == verifC01ID, "levelTag/idTag")
+	}
+	if cfg.augment == 3 {
+		nt++
+		v.Assert(tags["it"] == verifC01ID, "idTag")
+	}
+	v.Assert(len(fields) == nf && len(tags) == nt, "nothing else added to forwarded data")
+}
+
+// ---------------------------------------------------------------------------------
+// H1: stream form
+// ---------------------------------------------------------------------------------
+
 // VerifC01Stream drives the alert state of one alert ID with k points whose condition
 // bits and times are symbolic and compares what reaches the handlers (and what is
 // forwarded downstream) with the reference state machine.
 func VerifC01Stream(v *vrt.T) {
 	k := v.Bound("points", 3)
-	cfg := verifC01ChooseCfg(v)
+	missing := v.Bound("missing", 0) != 0
+	cfg := verifC01ChooseCfg(v, false)
 	svc := &verifC01AlertSvc{}
 	diag := &verifNopDiag{}
 	an := verifC01Node(cfg, svc, diag)
@@ -309,7 +436,8 @@ func VerifC01Stream(v *vrt.T) {
 		if i > 0 {
 			t += int64(v.IntRange("dt", 0, 40))
 		}
-		fields, cond, reset := verifC01Fields(v, cfg)
+		fields, cond, reset := verifC01Fields(v, cfg, missing, int64(i))
+		nfields := len(fields)
 		p := edge.NewPointMessage("m", "db", "rp", dims, fields, tags, time.Unix(0, t).UTC())
 		before := len(svc.events)
 		msg, err := state.Point(p)
@@ -318,22 +446,118 @@ func VerifC01Stream(v *vrt.T) {
 		wantLevel := ref.newLevel(cond, reset)
 		v.Assert(state.currentLevel() == wantLevel, "level of the point is the documented one")
 		emit, dur := ref.step(wantLevel, t)
-		got := len(svc.events) - before
-		v.Observe("events", got, int(state.currentLevel()))
-		if emit {
-			v.Assert(got == 1, "an event reaches the handlers exactly when documented (missing or duplicated)")
-		} else {
-			v.Assert(got == 0, "an event reaches the handlers exactly when documented (unexpected event)")
-		}
+		v.Observe("step", msg != nil, int(state.currentLevel()), len(svc.events)-before)
+		verifC01CheckEvents(v, cfg, svc, before, emit, wantLevel, t, dur)
 		v.Assert((msg != nil) == emit, "point forwarded downstream iff an event was sent")
-		if emit && got == 1 {
-			ev := svc.events[before]
-			v.Observe("event", int(ev.State.Level), ev.State.Time.UnixNano(), int64(ev.State.Duration))
-			v.Assert(ev.State.Level == wantLevel, "event carries the level")
-			v.Assert(ev.State.Time.UnixNano() == t, "event carries the time of the triggering point")
-			v.Assert(int64(ev.State.Duration) == dur, "event duration is the time since the ID left OK")
-			v.Assert(ev.State.ID == verifC01ID && ev.Topic == an.anonTopic, "event id/topic")
-			v.Assert(ev.Data.Recoverable == !cfg.noRec, "recoverable flag")
+		if emit && msg != nil {
+			fp, ok := msg.(edge.PointMessage)
+			v.Assert(ok, "forwarded message is a point")
+			v.Assert(fp.Time().UnixNano() == t && fp.Name() == "m" && fp.GroupID() == p.GroupID(), "forwarded point keeps time/name/group")
+			v.Assert(len(p.Fields()) == nfields && len(p.Tags()) == 1, "received point not modified")
+			verifC01CheckAugmented(v, cfg, fp.Fields(), p.Fields(), fp.Tags(), wantLevel, dur)
+		}
+	}
+	if !missing {
+		v.Assert(diag.errors == 0, "no evaluation errors logged")
+	}
+	v.Reach("end")
+}
+
+// ---------------------------------------------------------------------------------
+// H2: batch form
+// ---------------------------------------------------------------------------------
+
+// VerifC01Batch drives the alert state of one alert ID with batches of 0..n points:
+// the batch level is the highest point level (lowest with all()), each point level
+// determined against the ID's level before the batch; the event time is the time of the
+// first point with the highest level, or the batch time with all() or when the level is OK.
+func VerifC01Batch(v *vrt.T) {
+	nb := v.Bound("batches", 2)
+	maxpts := v.Bound("maxpts", 2)
+	cfg := verifC01ChooseCfg(v, true)
+	svc := &verifC01AlertSvc{}
+	diag := &verifNopDiag{}
+	an := verifC01Node(cfg, svc, diag)
+	_, tags := verifC01Group()
+	state := an.newAlertState(tags)
+	ref := &verifC01Ref{cfg: cfg}
+
+	t := v.Time("t0", verifT2020-32, verifT2020+32).UnixNano()
+	seq := int64(0)
+	for j := 0; j < nb; j++ {
+		n := v.Choose("npoints", maxpts+1)
+		var pts []edge.BatchPointMessage
+		var orig []models.Fields
+		var nfields []int
+		var times []int64
+		var levels []alert.Level
+		for i := 0; i < n; i++ {
+			t += int64(v.IntRange("dt", 0, 24))
+			fields, cond, reset := verifC01Fields(v, cfg, false, seq)
+			seq++
+			pts = append(pts, edge.NewBatchPointMessage(fields, tags, time.Unix(0, t).UTC()))
+			orig = append(orig, fields)
+			nfields = append(nfields, len(fields))
+			times = append(times, t)
+			levels = append(levels, ref.newLevel(cond, reset)) // all against the level before the batch
+		}
+		t += int64(v.IntRange("dt", 0, 24))
+		tmax := t
+		begin := edge.NewBeginBatchMessage("m", tags, false, time.Unix(0, tmax).UTC(), n)
+		before := len(svc.events)
+		var msg edge.Message
+		var err error
+		if j%2 == 0 {
+			// as it arrives over an edge: begin, points, end
+			msg, err = state.BeginBatch(begin)
+			v.Assert(msg == nil && err == nil, "begin batch")
+			for _, bp := range pts {
+				msg, err = state.BatchPoint(bp)
+				v.Assert(msg == nil && err == nil, "batch point")
+			}
+			msg, err = state.EndBatch(edge.NewEndBatchMessage())
+		} else {
+			msg, err = state.BufferedBatch(edge.NewBufferedBatchMessage(begin, pts, edge.NewEndBatchMessage()))
+		}
+		v.Assert(err == nil, "no error")
+		if n == 0 {
+			v.Assert(msg == nil && len(svc.events) == before && state.currentLevel() == ref.level, "empty batch changes nothing")
+			continue
+		}
+		// reference: batch level and time
+		wantLevel := levels[0]
+		first := 0
+		for i := 1; i < n; i++ {
+			if cfg.all {
+				if levels[i] < wantLevel {
+					wantLevel = levels[i]
+				}
+			} else if levels[i] > wantLevel {
+				wantLevel = levels[i]
+				first = i
+			}
+		}
+		wantT := times[first]
+		if cfg.all || wantLevel == alert.OK {
+			wantT = tmax
+		}
+		v.Assert(state.currentLevel() == wantLevel, "level of the batch is the documented one")
+		emit, dur := ref.step(wantLevel, wantT)
+		v.Observe("step", msg != nil, int(state.currentLevel()), len(svc.events)-before)
+		verifC01CheckEvents(v, cfg, svc, before, emit, wantLevel, wantT, dur)
+		v.Assert((msg != nil) == emit, "batch forwarded downstream iff an event was sent")
+		if emit && msg != nil {
+			fb, ok := msg.(edge.BufferedBatchMessage)
+			v.Assert(ok, "forwarded message is a batch")
+			v.Assert(fb.Time().UnixNano() == tmax && fb.Name() == "m" && len(fb.Points()) == n, "forwarded batch keeps time/name/size")
+			if len(fb.Points()) == n {
+				for i, bp := range fb.Points() {
+					v.Assert(bp.Time().UnixNano() == times[i], "forwarded batch point keeps its time")
+					v.Assert(len(pts[i].Fields()) == nfields[i] && len(pts[i].Tags()) == 1, "received batch point not modified")
+					verifC01CheckAugmented(v, cfg, bp.Fields(), orig[i], bp.Tags(), wantLevel, dur)
+				}
+			}
+			v.Assert(len(begin.Tags()) == 1, "received batch not modified")
 		}
 	}
 	v.Assert(diag.errors == 0, "no evaluation errors logged")
